@@ -4,7 +4,7 @@ from fractions import Fraction
 from world import amounts, specials, enc_frac, amount_value, enc_f64, dec_f64, f64_next, enc_dec, dec_dec
 
 ID = "C02"
-LEAN_MODULES = ["QtyModel.Props.C02", "QtyModel.Props.Backends", "QtyModel.Props.TieConv", "QtyModel.Props.TieCmp", "QtyModel.Props.TieKindsRefCmp", "QtyModel.Props.C02Inf"]
+LEAN_MODULES = ["QtyModel.Props.C02", "QtyModel.Props.Backends", "QtyModel.Props.TieConv", "QtyModel.Props.TieCmp", "QtyModel.Props.TieKindsRefCmp", "QtyModel.Props.C02Inf", "QtyModel.Props.OracleSoundC02"]
 HARNESS_GROUPS = ()
 RULE = ("every ordered unit pair of every quantity type with a reference unit x amount pairs built to denote the "
         "same magnitude (x = nearest(y*s_j/s_i)), neighbouring magnitudes (+-1 ulp / +-1 last digit), unrelated "
